@@ -30,6 +30,7 @@ CHECKS = {
     "C10": (TV, "shadow", A_TECH + "; aliasing audit on the real modules across a real update history", A_NOTE, "Operands and derived circuit are compiled in one context; solver variables are written ONLY into the operand's tensors (locations snapshotted before the derived circuit is compiled) = state after an arbitrary history of in-place updates; both are executed symbolically under one shadow memory and z3 decides derived == operator definition applied to the operand and operand == its semantics; object identity of every learnable tensor of the derived circuit with an operand tensor and registry stability are audited after compile and after each step of a real history (reset, SGD step through the derived circuit, load_state_dict, reset of the derived circuit)."),
     "C16": (MC, "symx", B_TECH, B_NOTE + "; the construction algorithms themselves run on concrete arguments (their outputs are the skeletons)", "The real RegionGraph constructor, is_structured_decomposable and build_circuit (cp, cp-t, tucker, explicit factories) run on symbolic scopes over hand-written skeletons (incl. malformed ones) and over the outputs of every construction algorithm (RandomBinaryTree, LinearTree, FullyFactorized, QuadTree, QuadGraph, PoonDomingos, ChowLiuTree, tree2rg) on bounded arguments; per path z3 decides: rejected iff malformed, SD flag iff partitions structured, circuit smooth / decomposable / same scope / one output per root with num_classes units / SD when the flag is; algorithm outputs additionally cover the requested variables and survive dump/load."),
     "C17": (TV, "shadow", "symbolic execution of compilation / reset_parameters under the ATen-dispatch shadow engine with the random sources replaced by contract stubs (fresh tagged symbols) + z3 for the simplex / bound obligations", "bounded parameter sets (see evidence); the stubs carry call arguments and contracts only, no distributional claim", "Compilation and two poisoned resets run symbolically with aten.normal_/uniform_/_sample_dirichlet stubbed by fresh symbols tagged with their call arguments; per symbolic parameter slice: constants/arrays equal the initialiser value, uniform/normal entries are fresh draws of the parameter's own initialiser (z3: a <= u <= b), Dirichlet entries sum to one along the DECLARED axis (z3, from the stub's last-axis simplex contract) with the right concentration per position; dtype and requires_grad follow the symbolic parameter; all flag pairs."),
+    "C18": (MC, "symx", "bounded exploration of call histories: the history is a vector of solver variables (op codes), z3 enumerates every feasible history path by path (enabledness as path conditions) and the real objects execute it against an independent model", "bounded history length and alphabet (see evidence); sequential histories only", "All histories of compile / operator-function / lookup / context enter-exit (normal and exceptional, nested, reused) calls up to the bound are executed on real PipelineContext / TorchCompiler objects; after every call the registry (both directions, memoisation, once-only and operands-first compilation order) and the active context / operator registry are compared with an independent model."),
     "C19": (TV, "shadow", A_TECH + "; state_dict/load_state_dict executed under the shadow engine", A_NOTE, "The circuit (and pipeline) is compiled in two independent contexts; A's tensors hold solver variables, B fresh values; the real state_dict()/load_state_dict(strict) (then reset, load again) run under the shadow engine and z3 decides B(x) == A(x) per output entry for all parameter values and inputs, for operands and derived circuits; every learnable / frozen non-constant tensor is in the state dict (exactly once by storage for circuits without references), keys are deterministic."),
     "C11": (TV, "shadow", A_TECH + "; symbolic integration masks with path exploration", A_NOTE, "IntegrateQuery.__call__ is executed symbolically with the integration mask entries as solver variables (paths over the mask explored within a stated budget) and with every accepted mask format (Scope, list of Scopes, bool/int tensor); z3 decides, per batch row, equality with the reference marginal (sum / Gaussian integral over exactly the masked variables); empty scopes, full scopes and per-row different masks included."),
     "C12": (TV, "shadow", A_TECH, A_NOTE, "Template circuits built with normalised parameterisations (image_data, tabular_data, hmm, fully_factorized, region graphs with softmax weights and mixing) are integrated over the whole scope, compiled and executed symbolically; z3 decides Z(theta) == 1 for all parameter values (softmax abstracted to the open simplex), non-negativity of the denotation and definedness of every log."),
